@@ -185,11 +185,25 @@ pub fn run(op: &str, args: &[String]) -> Option<String> {
                 Ok(p) => p,
                 Err(_) => return Some("ERR".into()),
             };
-            show_msg(
-                ECIES::encrypt_with_ephemeral_private_key(&msg, &own)
-                    .and_then(|c| ECIESCiphertext::from_bytes(&c.to_bytes(), true))
-                    .and_then(|c| c.extract_public_key().and_then(|sender| ECIES::decrypt(&c, &d, &sender))),
-            )
+            // two encryptions: both must round-trip through bytes, and the embedded sender keys must differ
+            // (a fresh random key per call)
+            let one = |m: &[u8]| -> Result<(Vec<u8>, Vec<u8>), bsv::BSVErrors> {
+                let c = ECIES::encrypt_with_ephemeral_private_key(m, &own)?;
+                let c2 = ECIESCiphertext::from_bytes(&c.to_bytes(), true)?;
+                let sender = c2.extract_public_key()?;
+                let plain = ECIES::decrypt(&c2, &d, &sender)?;
+                Ok((plain, sender.to_bytes()?))
+            };
+            match (one(&msg), one(&msg)) {
+                (Ok((p1, k1)), Ok((p2, k2))) => {
+                    if p1 != p2 {
+                        "OK:differ".into()
+                    } else {
+                        format!("OK:{};{}", show_bytes(&p1), if k1 != k2 { 1 } else { 0 })
+                    }
+                }
+                _ => "ERR".into(),
+            }
         }
         _ => return None,
     })
